@@ -174,7 +174,7 @@ def _shared_list_sites(fn):
 
 def rule_r3(repo):
     from sa.rules import c06
-    return c06.rule_alias(repo, 'C05.R3', (True,))
+    return c06.rule_alias(repo, 'C05.R3', (False, True))
 
 
 def rule_r10(repo):
@@ -317,6 +317,8 @@ def run(repo, check):
     for f in r9.findings:
         f.rule = 'C05.R9'
     check.add(r9)
+    from sa.rules.common import share
+    share(check, repo, c01.rule_r5, 'C05.R11', 'descriptors handed to the (compressed and uncompressed) primitives carry the width that is read (shared with C01.R5)')
     check.assumptions = ['nbits_for_uint ranges over unbounded integers and is not folded; its argument is checked',
                          'one asymmetry is deliberately not compared: only the code/flag routine re-tests min + difference against the all-ones '
                          'pattern of the element (raw all-ones numerics decode differently compressed / uncompressed; outside the stated raw domain)']
